@@ -313,7 +313,11 @@ class SynGen:
 			for _ in range(n_targets):
 				if r.random() < 0.2:
 					self.f.add('assign-destructure')
-					targets.append(', '.join(self.target(d) for _ in range(r.choice([2, 3]))))
+					parts = [self.target(d) for _ in range(r.choice([2, 3]))]
+					if not self.o.get('destructure_to_self', False):
+						# open finding of C02: in a constructor only the FIRST target of a destructuring assignment is classified as a field declaration
+						parts = [p if not p.startswith('self.') else self.name() for p in parts]
+					targets.append(', '.join(parts))
 				else:
 					targets.append(self.target(d))
 			value = self.expr(d) if r.random() < 0.85 else self.expr(d - 1) + ', ' + self.expr(d - 1)
